@@ -3,11 +3,13 @@
 set -eu
 HERE="$(cd "$(dirname "$0")" && pwd)"
 BIN="$("$HERE/build.sh")"
-export BIN
+export BIN HERE
+# VERIF_REPLAY_SKIP_LEAK_DEMO=1 skips the ct_trace leak demonstration (a ~15 s scratch build under /tmp).
 exec python3 - <<'PYEOF'
-import hashlib, hmac as pyhmac, json, os, subprocess, sys, time
+import hashlib, hmac as pyhmac, json, os, shutil, subprocess, sys, tempfile, time
 
 BIN = os.environ["BIN"]
+HERE = os.environ["HERE"]
 SECRET = "wJalrXUtnFEMI/K7MDENG+bPxRfiCYEXAMPLEKEY"
 T0 = {"secs": 1440938160, "nanos": 0}          # 2015-08-30T12:36:00Z
 SIG = "5fa00fa31553b73ebf1942676e86291e8372ff2a2260956d9b8aae1d763fbf31"
@@ -287,7 +289,83 @@ t("http rejects header value", {"op": "canonical", "request": {"uri": "/", "head
 t("http rejects header name", {"op": "canonical", "request": {"uri": "/", "headers": [["a b", "00"]]}},
   lambda r: expect("bad_input" in r, r))
 t("instant out of range", validate(server_time={"secs": 2**62}), lambda r: expect("bad_input" in r, r))
-t("ct_trace", {"op": "ct_trace"}, lambda r: eq(r, {"bad_input": "unsupported"}))
+
+# --- ct_trace / memcmp_probe ---------------------------------------------------------------------
+CT = {"op": "ct_trace", "canonical_request_sha256": hashlib.sha256(creq).hexdigest(),
+      "credential": "AKIDEXAMPLE/20150830/us-east-1/service/aws4_request", "session_token": None,
+      "timestamp": T0, "region": "us-east-1", "service": "service", "server_time": T0, "mismatch_secs": 900,
+      "provider": {"result": {"secret": SECRET}}}
+MISMATCH_MSG = "The request signature we calculated does not match the signature you provided."
+def ct_runs_ok(r, n):
+    expect("runs" in r, r)
+    eq(len(r["runs"]), n)
+    for x in r["runs"]:
+        expect("error" not in x, x)
+        expect(isinstance(x["steps"], int) and 1000 < x["steps"] < 5000000, x)
+        eq(len(x["trace_hash"]), 64)
+    eq(r["expected_signature"], SIG)
+def chk_ct_const_time(r):
+    # The property as it holds for the unmodified crate (subtle's ct_eq): the executed instruction
+    # sequence does not depend on where the presented signature first differs from the expected one.
+    ct_runs_ok(r, 4)
+    eq([x["relative"][0] for x in r["runs"]], [0, 1, 31, 63])
+    for x in r["runs"]:
+        eq(x["outcome"], "SignatureDoesNotMatch"); expect(x["msg"].startswith(MISMATCH_MSG), x["msg"])
+        eq(x["first_divergence"], None); eq(x["polls"], 1)
+        eq(sum(a != b for a, b in zip(x["signature"], SIG)), 1)
+        expect(x["signature"][x["relative"][0]] == x["relative"][1] != SIG[x["relative"][0]], x)
+    eq(len({x["steps"] for x in r["runs"]}), 1); eq(len({x["trace_hash"] for x in r["runs"]}), 1)
+    eq(len({x["cmp_bytes"] for x in r["runs"]}), 1)
+    eq(r["all_equal"], True)
+t("ct_trace positions 0/1/31/63: identical traces",
+  dict(CT, relative_to_expected=[[0, "0"], [1, "0"], [31, "0"], [63, "0"]]), chk_ct_const_time)
+def chk_ct_ok(r):
+    ct_runs_ok(r, 3)
+    ok, wrong_a, wrong_b = r["runs"]
+    eq(ok["signature"], SIG); eq(ok["outcome"], "ok"); eq(ok["msg"], None); eq(ok["first_divergence"], None)
+    eq(wrong_a["outcome"], "SignatureDoesNotMatch"); eq(wrong_b["outcome"], "SignatureDoesNotMatch")
+    eq(wrong_a["relative"], [5, "a"])        # SIG[5] is 'f', so "f" had to be replaced by another letter
+    eq(wrong_b["relative"], [6, "b"])        # SIG[6] is 'a', so "a" had to be replaced by another letter
+    eq(wrong_a["trace_hash"], wrong_b["trace_hash"])
+    # accept and reject take different paths after the comparison: the tracer must see that
+    expect(ok["trace_hash"] != wrong_a["trace_hash"], "ok and mismatch traces are identical")
+    expect(isinstance(wrong_a["first_divergence"], int) and wrong_a["first_divergence"] > 1000, wrong_a)
+    expect(wrong_a["divergence_at"]["rip"] != wrong_a["divergence_at"]["ref_rip"], wrong_a)
+    eq(r["all_equal"], False)
+t("ct_trace correct signature is accepted (signatures + relative_to_expected)",
+  dict(CT, signatures=[SIG], relative_to_expected=[[5, "f"], [6, "a"]]), chk_ct_ok)
+t("ct_trace expired request (fails in prevalidate, provider untouched)",
+  dict(CT, signatures=[SIG], server_time={"secs": T0["secs"] + 901}),
+  lambda r: (ct_runs_ok(r, 1), eq(r["runs"][0]["outcome"], "SignatureDoesNotMatch"),
+             expect("Signature expired" in r["runs"][0]["msg"], r), eq(r["runs"][0]["polls"], 1), eq(r["all_equal"], True)))
+t("ct_trace provider error", dict(CT, signatures=[SIG], provider={"result": {"err": {"foreign": "db down"}}}),
+  lambda r: (eq(r["runs"][0]["outcome"], "InternalServiceError"), eq(r["expected_signature"], None)))
+t("ct_trace never ready", dict(CT, signatures=[SIG], provider={"result": {"secret": SECRET}, "future_pending": 5000}),
+  lambda r: (eq(r["runs"][0]["outcome"], "never ready"), eq(r["runs"][0]["polls"], 1000)))
+def chk_ct_cap(r):
+    eq(r["all_equal"], False); eq(r["max_steps"], 2000); eq(len(r["runs"]), 2)
+    for x in r["runs"]:
+        expect("step cap of 2000" in x["error"], x)
+        eq((x["outcome"], x["steps"], x["trace_hash"], x["first_divergence"]), (None, None, None, None))
+t("ct_trace step cap: child killed, per-run error", dict(CT, signatures=[SIG, bad_sig], max_steps=2000), chk_ct_cap)
+t("ct_trace bad max_steps", dict(CT, signatures=[SIG], max_steps=5000001), lambda r: expect("bad_input" in r, r))
+t("ct_trace without signatures", CT, lambda r: expect("bad_input" in r, r))
+t("ct_trace empty list", dict(CT, signatures=[]), lambda r: eq(r["runs"], []))
+t("ct_trace position out of range", dict(CT, relative_to_expected=[[64, "0"]]), lambda r: expect("bad_input" in r, r))
+t("ct_trace relative without expected", dict(CT, relative_to_expected=[[0, "0"]], provider={"result": {"err": {"foreign": "x"}}}),
+  lambda r: expect("bad_input" in r, r))
+t("alive and logging after ct_trace", validate(log_level="debug", provider={"result": {"err": {"foreign": "x"}}}),
+  lambda r: eq([l[0] for l in r["logs"]], ["DEBUG"]))
+def chk_probe(pos, looked_at):
+    def chk(r):
+        # `==` on byte slices is lowered to bcmp, `cmp` to memcmp; both must land in the byte-wise,
+        # early-exit replacements defined in this binary (not in libc's vectorised routines).
+        eq(r["eq"], {"bcmp_calls": 1, "memcmp_calls": 0, "bytes_compared": looked_at, "result": pos is None})
+        eq(r["cmp"], {"bcmp_calls": 0, "memcmp_calls": 1, "bytes_compared": looked_at,
+                      "result": "Equal" if pos is None else "Greater"})
+    return chk
+for pos, looked_at in ((None, 64), (0, 1), (31, 32), (63, 64)):
+    t(f"memcmp_probe pos={pos}", {"op": "memcmp_probe", "len": 64, "pos": pos}, chk_probe(pos, looked_at))
 t("still alive at the end", {"op": "canon_path", "path": "/", "id": "end"}, lambda r: eq(r, {"ok": "/", "id": "end"}))
 
 # ---------------------------------------------------------------------------------------------
@@ -297,7 +375,7 @@ def raw(cmd):
     return (cmd if isinstance(cmd, str) else json.dumps(cmd)).encode()
 
 # Batch mode: everything in one go; stdout must hold exactly one reply line per command, stderr nothing.
-p = subprocess.run([BIN], input=b"\n".join(raw(c) for _, c, _ in tests) + b"\n\n", capture_output=True, timeout=120)
+p = subprocess.run([BIN], input=b"\n".join(raw(c) for _, c, _ in tests) + b"\n\n", capture_output=True, timeout=600)
 failures = []
 if p.returncode != 0:
     failures.append(f"exit status {p.returncode}")
@@ -350,7 +428,69 @@ if n_replies != N:
     failures.append(f"throughput run: {n_replies} replies for {N} commands")
 print(f"throughput: {N} canon_path commands in {dt:.2f}s = {N / dt:.0f} commands/s (line mode, one process)")
 
-total = len(tests) + 2
+# ct_trace must be able to SEE a leak: build verif-replay against a scratch copy of /repo whose signature
+# comparison is `==` (-> bcmp -> this binary's byte-wise early-exit loop) instead of subtle's ct_eq.
+extra = 0
+if os.environ.get("VERIF_REPLAY_SKIP_LEAK_DEMO") == "1":
+    print("ct_trace leak demonstration: skipped (VERIF_REPLAY_SKIP_LEAK_DEMO=1)")
+else:
+    extra = 1
+    scratch = tempfile.mkdtemp(prefix="verif-ct-", dir="/tmp")
+    try:
+        shutil.copytree("/repo", scratch + "/repo", ignore=shutil.ignore_patterns("target", ".git", ".idea"))
+        auth_rs = scratch + "/repo/src/auth.rs"
+        src = open(auth_rs).read()
+        CT_EQ = "signature_bytes.ct_eq(expected_signature_bytes).into()"
+        if src.count(CT_EQ) != 1:
+            raise AssertionError(f"/repo/src/auth.rs: expected exactly one {CT_EQ!r}")
+        open(auth_rs, "w").write(src.replace(CT_EQ, "signature_bytes == expected_signature_bytes"))
+        shutil.copytree(HERE, scratch + "/replay", ignore=shutil.ignore_patterns("target"))
+        toml = open(scratch + "/replay/Cargo.toml").read()
+        if toml.count('path = "/repo"') != 1:
+            raise AssertionError("Cargo.toml: path dependency on /repo not found")
+        open(scratch + "/replay/Cargo.toml", "w").write(toml.replace('path = "/repo"', f'path = "{scratch}/repo"'))
+        b = subprocess.run(["cargo", "build", "--release", "--offline", "--quiet", "--target-dir", scratch + "/target"],
+                           cwd=scratch + "/replay", capture_output=True, timeout=1200)
+        if b.returncode != 0:
+            raise AssertionError("scratch build failed: " + b.stderr.decode()[-600:])
+        positions = [0, 31, 63]
+        def steps_by_position(binary):
+            out = subprocess.run([binary, "--one", json.dumps(dict(CT, relative_to_expected=[[p, "0"] for p in positions]))],
+                                 capture_output=True, timeout=600)
+            return json.loads(out.stdout)
+        leaky, sound = steps_by_position(scratch + "/target/release/verif-replay"), steps_by_position(BIN)
+        for name, r in (("== variant", leaky), ("ct_eq (unmodified /repo)", sound)):
+            print(f"ct_trace {name}: " + ", ".join(
+                f"pos {x['relative'][0]}: steps={x['steps']} bcmp_calls={x['bcmp_calls']} memcmp_calls={x['memcmp_calls']} "
+                f"cmp_bytes={x['cmp_bytes']}" for x in r["runs"]) + f"; all_equal={r['all_equal']}")
+        ls, ss = [x["steps"] for x in leaky["runs"]], [x["steps"] for x in sound["runs"]]
+        expect(all(x["outcome"] == "SignatureDoesNotMatch" and "error" not in x for x in leaky["runs"] + sound["runs"]), leaky)
+        expect(ls[0] < ls[1] < ls[2], f"== variant: steps do not grow with the position: {ls}")
+        eq(leaky["all_equal"], False); eq(len({x["trace_hash"] for x in leaky["runs"]}), 3)
+        expect(all(isinstance(x["first_divergence"], int) for x in leaky["runs"][1:]), leaky["runs"])
+        # one more bcmp call than the sound build, and it looks at pos+1 bytes
+        eq([x["bcmp_calls"] - y["bcmp_calls"] for x, y in zip(leaky["runs"], sound["runs"])], [1, 1, 1])
+        eq([x["cmp_bytes"] - y["cmp_bytes"] for x, y in zip(leaky["runs"], sound["runs"])], [p + 1 for p in positions])
+        # constant cost per additional byte compared
+        eq((ls[2] - ls[1]) * (positions[1] - positions[0]), (ls[1] - ls[0]) * (positions[2] - positions[1]))
+        # where do the traces part? Resolve the address with nm: it must be inside this binary's `bcmp`.
+        at = leaky["runs"][1]["divergence_at"]
+        obj, off = at["last_common_rip"].split("+")
+        syms = sorted((int(a, 16), n) for a, k, n in
+                      (l.split()[:3] for l in subprocess.run(["nm", "--defined-only", scratch + "/target/release/verif-replay"],
+                                                             capture_output=True, text=True).stdout.splitlines() if len(l.split()) >= 3)
+                      if k in "tTwW")
+        inside = [n for a, n in syms if a <= int(off, 16)][-1]
+        print(f"ct_trace == variant: traces part after the instruction at {at['last_common_rip']}, i.e. inside `{inside}`")
+        eq((obj, inside), ("exe", "bcmp"))
+        expect(ss[0] == ss[1] == ss[2] and sound["all_equal"] is True, f"unmodified crate: {ss}")
+        passed += 1
+    except Exception as e:          # noqa: BLE001
+        failures.append(f"ct_trace leak demonstration: {type(e).__name__}: {e}")
+    finally:
+        shutil.rmtree(scratch, ignore_errors=True)
+
+total = len(tests) + 2 + extra
 print(f"selftest: {passed}/{total} checks passed")
 for f in failures:
     print("FAIL " + f)
